@@ -306,9 +306,12 @@ int main(int argc, char** argv)
     r.axis("workers", jstr("2.." + std::to_string(args.geti("maxW", 2))));
     r.axis("samples_x_batch", jstr("(6,2) = 3 chunks, (4,1) = 4 chunks"));
     r.axis("preemption_budget", jint(budget));
+    // --split config (default): whole configurations are dealt out to the shards; --split frontier: every shard explores its
+    // part of the schedule tree of every configuration (for the deep thorough bounds)
+    const bool by_config = args.get("split", "config") == "config";
     for (size_t i = 0; i < configs.size(); ++i)
     {
-        if (!args.mine(i))
+        if (by_config && !args.mine(i))
         {
             continue;
         }
@@ -324,7 +327,7 @@ int main(int argc, char** argv)
             r.cap("deadline: " + c.cfg.str() + " not explored");
             break;
         }
-        sched::explore(sc, body, after, fatal, &c, 0, 1, left, &st);
+        sched::explore(sc, body, after, fatal, &c, by_config ? 0 : args.shard, by_config ? 1 : args.shards, left, &st);
         r.traces += st.executions;
         r.evaluations += st.executions;
         r.transitions += st.transitions;
